@@ -15,7 +15,7 @@ type c07Mon struct {
 	okAt     [bMax]int
 	lastErr  [bMax]error
 	fbCalls  [bMax]int
-	fbMode   [bMax]int // 0 fallback succeeds, 1 fallback fails
+	fbMode   [bMax]int // 0 fallback succeeds, 1 fallback fails, 2 fallback succeeds with a nil value
 	fbErr    [bMax]error
 	fbVal    [bMax]any
 }
@@ -70,10 +70,14 @@ func VH_C07_batch() {
 			m.fbCalls[k]++
 			vAssert(m.okAt[k] == 0 && m.attempts[k] == N, "fallback-only-after-the-items-budget-is-exhausted")
 			vAssert(err == m.lastErr[k], "fallback-receives-the-items-last-error")
-			m.fbMode[k] = vChoice("fbMode", 2)
+			m.fbMode[k] = vChoice("fbMode", 3)
 			if m.fbMode[k] == 1 {
 				m.fbErr[k] = &vError{id: 900 + k}
 				ferr = m.fbErr[k]
+			} else if m.fbMode[k] == 2 {
+				// swallowing the failure with a nil value is a recovery too (as for a single node)
+				vCover("fb-recovers-with-nil")
+				m.fbVal[k] = nil
 			} else {
 				m.fbVal[k] = &vTok{id: 800 + k}
 				out = m.fbVal[k]
@@ -100,7 +104,7 @@ func VH_C07_batch() {
 		} else {
 			vAssert(m.attempts[i] == N, "failing-item-gets-exactly-N-attempts")
 			vAssert(m.fbCalls[i] == 1, "fallback-exactly-once-per-exhausted-item")
-			if m.fbMode[i] == 0 {
+			if m.fbMode[i] != 1 {
 				vCover("fb-ok")
 				vAssert(!r.IsError() && vSame(r.Value(), m.fbVal[i]), "slot-holds-the-fallbacks-value")
 			} else {
